@@ -16,7 +16,7 @@ func init() {
 		Decided: "(a) every success return of AuthFirstPacket is behind: transport parse ok, replay test negative, decryption ok; decryptClientInfo uses the plaintext only after a successful AES-GCM open and succeeds only inside a two-sided STRICT window with the same tolerance constant on both sides, the client time being the big-endian 64-bit field at [29:37]; " +
 			"the transports accept only carriers of exactly the right lengths (64-byte sealed block, 32-byte key share, ≥96/==64 hidden bytes) and parseClientHello's type/version/length tests precede success; (b) the handshake reply is only sent behind all of these plus obfuscator ok plus (admin gate, or proxy method known ∧ user authorised ∧ session granted); " +
 			"(c) the user-management router is constructed only behind len(AdminUID)≠0 ∧ UID==AdminUID ∧ SessionId==0; authentication succeeds only for an existing record with positive credit in both directions that has not expired.",
-		NotDecided: "that a forged packet cannot pass AES-GCM/X25519 (cryptographic soundness assumed); clock behaviour; everything 'else is handled as web traffic' is C09.R3.",
+		NotDecided:  "that a forged packet cannot pass AES-GCM/X25519 (cryptographic soundness assumed); clock behaviour; everything 'else is handled as web traffic' is C09.R3.",
 		Assumptions: []string{"time.Time.After/Before are strict comparisons"},
 	})
 }
@@ -174,7 +174,7 @@ func c07R1(c *Ctx, rule string) {
 }
 
 type windowAtom struct {
-	lower  bool  // bounds clientTime from below (clientTime > serverTime + c)
+	lower  bool // bounds clientTime from below (clientTime > serverTime + c)
 	strict bool
 	c      int64 // offset in ns
 	desc   string
@@ -497,7 +497,8 @@ func c07R4(c *Ctx, rule string) {
 	})
 	adminGate := func(at ssa.Instruction) bool {
 		lenOK, eqOK, sidOK := false, false, false
-		for _, a := range AtomsAt(at) {
+		gateAtoms, _ := expandBoolCalls(p, AtomsAt(at)) // the gate may live in a boolean helper (isAdminSession)
+		for _, a := range gateAtoms {
 			s := a.String()
 			if a.Kind == "cmp" && a.Op == token.NEQ && strings.Contains(s, "len(") && strings.Contains(s, "AdminUID") {
 				lenOK = true
@@ -527,7 +528,8 @@ func c07R4(c *Ctx, rule string) {
 		if getSession != nil && hasNilErrGuard(i, getSession, 2) {
 			// proxy method known
 			pb := false
-			for _, a := range AtomsAt(i) {
+			userAtoms, _ := expandBoolCalls(p, AtomsAt(i))
+			for _, a := range userAtoms {
 				if a.Kind == "ok" && a.Pol && strings.Contains(a.String(), "ProxyBook") {
 					pb = true
 				}
@@ -539,6 +541,24 @@ func c07R4(c *Ctx, rule string) {
 					s := a.String()
 					if strings.Contains(s, "GetUser") || strings.Contains(s, "GetBypassUser") {
 						ue = true
+					}
+					// the lookup moved into a helper split off from dispatchConnection (authoriseUID, resolveActiveUser)
+					for _, side := range []ssa.Value{a.X, a.Y} {
+						if ex, isEx := side.(*ssa.Extract); isEx {
+							if hc, isC := ex.Tuple.(*ssa.Call); isC {
+								if hg := hc.Call.StaticCallee(); hg != nil && p.inUnit(dc, hg) {
+									allInstrs(hg, func(j ssa.Instruction) {
+										if cc := callCommon(j); cc != nil {
+											n := calleeName(cc)
+											if strings.HasSuffix(n, "userPanel).GetUser") || strings.HasSuffix(n, "userPanel).GetBypassUser") {
+												ue = true
+												userCalls = append(userCalls, hc)
+											}
+										}
+									})
+								}
+							}
+						}
 					}
 				}
 			}
